@@ -33,7 +33,9 @@ def runMonitor (pid : String) (c : MonCtx) (ls : List Label) : Option (Option Na
   | "C07" => some (match ff (monC07 c) ls with
       | some k => some k
       | none => ff (monC07o c) ls)
-  | "C10" => some (ff (monC10 c) ls)
+  | "C10" => some (match ff (monC10 c) ls with
+      | some k => some k
+      | none => ff (monC10q c) ls)
   | "C11" => some (match ff (monC11 c) ls with
       | some k => some k
       | none => ff (monC11p c) ls)
